@@ -20,11 +20,13 @@ def reset():
 
 
 def set_size(size: int):
-    for cached in _cached:
+    for cached in list(_cached):
         wrapped = cached.__wrapped__
-        setattr(
-            sys.modules[wrapped.__module__], wrapped.__name__, lru_cache(size)(wrapped)
-        )
+        resized = lru_cache(size)(wrapped)
+        # the former cache may still be referenced by modules having imported it:
+        # both have to be cleared by `reset`
+        _cached.append(resized)
+        setattr(sys.modules[wrapped.__module__], wrapped.__name__, resized)
 
 
 K = TypeVar("K")
